@@ -46,6 +46,96 @@ def make(cfg):
     return code, dec, Dec
 
 
+def _isolated(Dec):
+    """Classes / modules whose class-level (module-level) containers are reset between paths."""
+    import sys as _sys
+    out = [c for c in Dec.__mro__ if c is not object]
+    out += [_sys.modules[c.__module__] for c in out if c.__module__ in _sys.modules]
+    return out
+
+
+def siblings(Dec, code):
+    """The other code classes the decoder declares support for, at the same size (where that size is in
+    the class's supported family)."""
+    import panqec.codes as pc
+    out = []
+    for name in Dec.allowed_codes:
+        if name != type(code).__name__ and hasattr(pc, name) and common.in_family(name, tuple(code.size)):
+            out.append(getattr(pc, name)(*code.size))
+    return out
+
+
+def w_cross(cfg, tier):
+    """cfg = 'cross <code>': decoders of the sibling code classes (same size) are USED first in the same
+    process -- every edge flipped, one decode -- then a fresh decoder for <code> flips a solver-chosen
+    (realised) edge on a solver-chosen (realised) single excited face: exactly the anticommuting faces
+    toggle.  Real code, concrete values; the history of the process is the subject."""
+    code, dec0, Dec = make(cfg)
+    from panqec.error_models import PauliErrorModel
+    em = PauliErrorModel(1 / 3, 1 / 3, 1 / 3)
+    n, m = code.n, code.n_stabilizers
+    col = hz.Collector(cfg)
+    col.encoded(Dec.flip_edge, Dec.decode)
+    used = []
+    for c2 in siblings(Dec, code):
+        d2 = Dec(c2, em, 0.1)
+        for loc in c2.qubit_coordinates:
+            try:
+                d2.flip_edge(loc, np.zeros(c2.n_stabilizers, dtype=np.uint8))
+            except Exception:       # noqa: the sibling's own defects are its own configuration's subject
+                pass
+        e2 = np.zeros(2 * c2.n, dtype=np.uint8)
+        e2[c2.n] = 1
+        try:
+            d2.decode(c2.measure_syndrome(e2))
+        except Exception:           # noqa
+            pass
+        used.append(type(c2).__name__)
+    Hd = code.stabilizer_matrix.toarray()
+    qc = list(code.qubit_coordinates)
+    eng = Engine(name=cfg, max_paths=20000)
+    with eng:
+        qi = eng.integer('edge', 0, n - 1)
+        fi = eng.integer('face', m - min(m, 6 if tier == 'quick' else 40), m)     # m = no excited face
+
+        def fn():
+            q, f = int(qi), int(fi)
+            dec = Dec(code, em, 0.1)
+            signs = np.zeros(m, dtype=np.uint8)
+            if f < m:
+                signs[f] = 1
+            before = signs.copy()
+            dec.flip_edge(qc[q], signs)
+            return q, f, bool(((before ^ signs) != Hd[:, q]).any())
+        ps = eng.explore(fn)
+    col.absorb(eng)
+    # same split as the geometry worker: "seam" edges have a neighbouring face coordinate outside the box
+    allc = list(code.qubit_coordinates) + list(code.stabilizer_coordinates)
+    lo = [min(c[d] for c in allc) for d in range(3)]
+    hi = [max(c[d] for c in allc) for d in range(3)]
+    is_seam = lambda q: any(qc[q][d] - 1 < lo[d] or qc[q][d] + 1 > hi[d] for d in range(2))
+    for tag in ('interior', 'seam'):
+        bad, w, cnt = [], [None], 0
+        for p in ps:
+            if p.exc is not None:
+                if tag == 'interior':
+                    bad.append(z3_and(p.pc))
+                    w[0] = w[0] or dict(exception=f'{type(p.exc).__name__}: {p.exc}', cross=used)
+                continue
+            q, f, b = p.value
+            if is_seam(q) != (tag == 'seam'):
+                continue
+            cnt += 1
+            bad.append(z3_and(p.pc + [z3.BoolVal(b)]))
+            if b and (w[0] is None or 'edge' not in w[0]):
+                w[0] = dict(edge=list(qc[q]), face=f, cross=used)
+        col.prove(f'C10/flip_edge/toggles-exactly-the-anticommuting-face-stabilizers/after-sibling-classes-were-used/{tag}',
+                  eng.base, z3_or(bad), lambda mo, w=w: w[0],
+                  f'{cnt} realised ({tag} edge, excited face) pairs; decoders for {used} at the same size were used '
+                  f'first in the same process')
+    return col.result()
+
+
 def w_geometry(cfg, tier):
     code, dec, Dec = make(cfg)
     n = code.n
@@ -56,7 +146,7 @@ def w_geometry(cfg, tier):
     qc = list(code.qubit_coordinates)
     lt.symbolize(code)
     S = [z3.Bool(f's_{i}') for i in range(m)]
-    eng = Engine(name=cfg, max_paths=3000)
+    eng = Engine(name=cfg, max_paths=3000, isolate=_isolated(Dec))
     with eng:
         edge = lt.sym_location(eng, 'q', qc, code.qubit_index)
 
@@ -152,7 +242,7 @@ def w_step(cfg, tier):
             n_win += 1
             SB = {i: z3.Bool(f'w_{i}') for i in fidx}
             CB = {e: z3.Bool('c_' + '_'.join(map(str, e))) for e in eok}
-            eng = Engine(name=cfg, max_paths=2000)
+            eng = Engine(name=cfg, max_paths=2000, isolate=_isolated(Dec))
             with eng:
                 def fn():
                     dec._rng = SymRng('tie')
@@ -246,7 +336,7 @@ def w_loop(cfg, tier):
     else:
         K = [0, 1, 2]
     max_calls = len(K)
-    eng = Engine(name=cfg, max_paths=6000)
+    eng = Engine(name=cfg, max_paths=6000, isolate=_isolated(Dec))
     with eng:
         def fn():
             calls = []
@@ -300,7 +390,7 @@ def w_loop(cfg, tier):
 
 
 def worker(cfg, tier='quick'):
-    return {'geometry': w_geometry, 'step': w_step, 'loop': w_loop}[cfg.split()[0]](cfg, tier)
+    return {'geometry': w_geometry, 'step': w_step, 'loop': w_loop, 'cross': w_cross}[cfg.split()[0]](cfg, tier)
 
 
 def replay(path):
@@ -316,6 +406,33 @@ def replay(path):
     n, m = code.n, code.n_stabilizers
     Hd = code.stabilizer_matrix.toarray()
     bad = False
+    if cfg.startswith('cross'):
+        em = PauliErrorModel(1 / 3, 1 / 3, 1 / 3)
+        for c2 in siblings(Dec, code):
+            d2 = Dec(c2, em, 0.1)
+            for loc in c2.qubit_coordinates:
+                try:
+                    d2.flip_edge(loc, np.zeros(c2.n_stabilizers, dtype=np.uint8))
+                except Exception:       # noqa
+                    pass
+        if 'edge' in w:
+            dec = Dec(code, em, 0.1)
+            signs = np.zeros(m, dtype=np.uint8)
+            if w['face'] < m:
+                signs[w['face']] = 1
+            before = signs.copy()
+            try:
+                dec.flip_edge(tuple(w['edge']), signs)
+                bad = bool(((before ^ signs) != Hd[:, code.qubit_index[tuple(w['edge'])]]).any())
+            except Exception as ex:
+                print('exception on replay:', type(ex).__name__, ex)
+                bad = True
+        else:
+            res = w_cross(cfg, 'quick')
+            bad = any(o['oid'] == oid and o['verdict'] == 'sat' for o in res['obs'])
+        print('siblings used first:', w.get('cross'), 'edge', w.get('edge'), 'excited face', w.get('face'))
+        print('REPLAY', 'reproduced' if bad else 'not-reproduced', oid, cfg)
+        return 0
     if cfg.startswith('loop'):
         res = w_loop(cfg, 'quick')
         bad = any(o['oid'] == oid and o['verdict'] == 'sat' for o in res['obs'])
@@ -374,6 +491,7 @@ def configs(tier):
     for c in cubic + rot:
         out.append(f'geometry {c}')
         out.append(f'step {c}')
+    out += [f'cross {c}' for c in (cubic + rot)[:(8 if tier == 'quick' else 100)]]
     out += ['loop Toric3DCode(2,2,2)', 'loop Planar3DCode(2,2,2)', 'loop RotatedPlanar3DCode(2,2,2)',
             'loop RotatedToric3DCode(2,2,2)']
     return out
